@@ -1070,6 +1070,20 @@ def t_dim(it, t):
     return t.ndim
 
 
+@tmethod("numel", "nelement")
+def t_numel(it, t):
+    n = 1
+    sym = None
+    for d in t.shape_:
+        if isinstance(d, int):
+            n *= d
+        else:
+            sym = d if sym is None else sym * d
+    if sym is None:
+        return n
+    return SV(z3.simplify(sym * n if n != 1 else sym), "int")
+
+
 @tmethod("size")
 def t_size(it, t, d=None):
     sh = t._getattr(it, "shape")
